@@ -54,7 +54,11 @@ func dev(args []string) {
 		for _, ud := range u.Undecided {
 			fmt.Printf("UNDECIDED %s: %s\n", u.Name, ud)
 		}
-		obls = append(obls, u.Obls...)
+		for _, o := range u.Obls {
+			if *prop == "" || o.Cover || vc.HasProp(o.Props, *prop) {
+				obls = append(obls, o)
+			}
+		}
 	}
 	res := vc.SolveAll(obls, *work, *secs, false, 8)
 	bad := 0
